@@ -48,6 +48,17 @@ def install_fault(fault):
         os.kill(os.getpid(), signal.SIGKILL)
 
     election._run_type_assignment_on_h5ad_worker = wrapper
+    if fault.get('save_delay'):
+        # the siblings have done their work and are about to save their chunk
+        # when the failure is noticed and the caller cleans up
+        orig_save = election.save_results
+
+        def slow_save(result, results_output_path):
+            import time
+            time.sleep(float(fault['save_delay']))
+            orig_save(result, results_output_path)
+
+        election.save_results = slow_save
 
 
 def run_stage(job):
@@ -55,17 +66,23 @@ def run_stage(job):
     if job.get('fault'):
         install_fault(job['fault'])
     if stage == 'precompute':
+        # what precompute_summary_stats_from_h5ad does, with copy_data_over
+        # passed on (the wrapper itself does not take it)
         from cell_type_mapper.diff_exp.precompute_from_anndata import (
-            precompute_summary_stats_from_h5ad)
-        precompute_summary_stats_from_h5ad(
+            precompute_summary_stats_from_h5ad_and_tree)
+        from cell_type_mapper.taxonomy.taxonomy_tree import TaxonomyTree
+        tree = TaxonomyTree.from_h5ad(
+            h5ad_path=job['data_path'],
+            column_hierarchy=list(job['column_hierarchy']))
+        precompute_summary_stats_from_h5ad_and_tree(
             data_path=job['data_path'],
-            column_hierarchy=job['column_hierarchy'],
-            taxonomy_tree=None,
+            taxonomy_tree=tree,
             output_path=job['output_path'],
             rows_at_a_time=job.get('rows_at_a_time', 7),
             normalization=job.get('normalization', 'raw'),
             tmp_dir=job['tmp_dir'],
-            n_processors=job.get('n_processors', 2))
+            n_processors=job.get('n_processors', 2),
+            copy_data_over=job.get('copy_data_over', False))
     elif stage == 'markers':
         from cell_type_mapper.diff_exp.markers import (
             find_markers_for_all_taxonomy_pairs)
@@ -136,6 +153,21 @@ def run_stage(job):
         raise ValueError('unknown stage %r' % stage)
 
 
+def list_dirs(dirs, job):
+    """listing made by the runner, not by the stage: bracketed by two marker
+    files so that fsmon drops these calls from the stage's trace"""
+    out = []
+    open(job['result'] + '.mark_begin', 'w').close()
+    try:
+        for d in dirs:
+            for dp, dns, fns in os.walk(d):
+                for x in dns + fns:
+                    out.append(os.path.join(dp, x))
+    finally:
+        open(job['result'] + '.mark_end', 'w').close()
+    return sorted(out)
+
+
 def main():
     job = json.loads(open(sys.argv[1]).read())
     status = {'ok': True, 'error': None}
@@ -153,6 +185,18 @@ def main():
             # destructors (FileTracker, AnnDataRowIterator) run now, while the
             # trace is still being recorded
             gc.collect()
+            # what the caller finds in the watched directories when the call
+            # has returned ...
+            status['at_return'] = list_dirs(job.get('watch', []), job)
+            # ... and once every worker the stage started is gone (a worker
+            # orphaned by a failed sibling may still be at work): bounded
+            import multiprocessing
+            import time
+            t_end = time.time() + float(job.get('settle', 5.0))
+            while multiprocessing.active_children() and time.time() < t_end:
+                time.sleep(0.05)
+            status['settled'] = not multiprocessing.active_children()
+            status['after_settle'] = list_dirs(job.get('watch', []), job)
     with open(job['result'], 'w') as f:
         json.dump(status, f)
 
